@@ -27,6 +27,8 @@ pub struct Unit {
     pub countable: bool,
     pub ch: Option<char>,
     pub val: Option<String>,
+    /// where the copy of this unit's first clock lives, if the item was redone (undo manager)
+    pub redone: Option<(u64, u32)>,
 }
 
 impl Unit {
@@ -64,6 +66,7 @@ pub fn units_of(b: &Branch) -> Vec<Unit> {
                     countable: it.countable,
                     ch: Some(c),
                     val: Some(c.to_string()),
+                    redone: it.redone.map(|r| (r.client.get(), r.clock + off)),
                 });
                 off += k;
             }
@@ -79,6 +82,7 @@ pub fn units_of(b: &Branch) -> Vec<Unit> {
                     countable: it.countable,
                     ch: None,
                     val: Some(dump::any_str(a)),
+                    redone: it.redone.map(|r| (r.client.get(), r.clock + i as u32)),
                 });
             }
             continue;
@@ -92,6 +96,7 @@ pub fn units_of(b: &Branch) -> Vec<Unit> {
             countable: it.countable,
             ch: None,
             val,
+            redone: it.redone.map(|r| (r.client.get(), r.clock)),
         });
     }
     out
@@ -134,6 +139,8 @@ pub struct MapLinkRec {
 
 #[derive(Default)]
 pub struct StickyState {
+    /// C14: an undo manager on node 0 (created by the first undo event of the run)
+    pub um: Option<(yrs::undo::UndoManager<()>, Arc<AtomicU64>)>,
     pub stickies: Vec<StickyRec>,
     pub quotes: Vec<QuoteRec>,
     pub maplinks: Vec<MapLinkRec>,
@@ -200,7 +207,36 @@ fn check_stickies(w: &mut World, n: usize) -> VResult {
                 }
             }
             Some(a) => {
-                let Some(p) = pos_of(&units, a) else { continue }; // the anchoring element is not known here yet
+                let Some(mut p) = pos_of(&units, a) else { continue }; // the anchoring element is not known here yet
+                // an element whose deletion was undone lives on in its copy (Item::redone, local
+                // to the replica that ran the undo manager)
+                let mut at = a;
+                let mut lost = false;
+                let mut hops = 0;
+                while let Some(r) = units[p].redone {
+                    let r = (r.0, r.1 + (at.1 - units[p].clock));
+                    match pos_of(&units, r) {
+                        Some(q) => {
+                            p = q;
+                            at = r;
+                        }
+                        None => {
+                            lost = true; // the copy lives in a re-created parent
+                            break;
+                        }
+                    }
+                    hops += 1;
+                    if hops > 64 {
+                        lost = true;
+                        break;
+                    }
+                }
+                if lost {
+                    continue;
+                }
+                if hops > 0 {
+                    probes.push("sticky.anchor-redone");
+                }
                 let before: u32 = units[..p].iter().filter(|u| u.visible()).map(|u| u.len(ok)).sum();
                 if units[p].visible() {
                     probes.push("sticky.anchor-visible");
@@ -252,6 +288,44 @@ fn check_stickies(w: &mut World, n: usize) -> VResult {
         w.probe(p);
     }
     Ok(())
+}
+
+/// undo / redo of node 0's own transactions (every root in scope, one capture step per event)
+fn sticky_undo(w: &mut World, undo: bool) -> VResult {
+    use yrs::undo::{Options, UndoManager};
+    if w.mon.sticky.um.is_none() {
+        let clock = Arc::new(AtomicU64::new(10_000));
+        let opts: Options<()> = Options {
+            capture_timeout_millis: 500,
+            tracked_origins: std::collections::HashSet::new(),
+            capture_transaction: None,
+            timestamp: Arc::new(crate::undomon::SimClock(clock.clone())),
+            init_undo_stack: Vec::new(),
+            init_redo_stack: Vec::new(),
+        };
+        let doc = w.nodes[0].doc.clone();
+        let mut um = UndoManager::with_options(opts);
+        um.expand_scope(&doc, &doc.get_or_insert_text(dump::ROOT_TEXT));
+        um.expand_scope(&doc, &doc.get_or_insert_array(dump::ROOT_ARRAY));
+        um.expand_scope(&doc, &doc.get_or_insert_map(dump::ROOT_MAP));
+        um.expand_scope(&doc, &doc.get_or_insert_xml_fragment(dump::ROOT_XML));
+        w.mon.sticky.um = Some((um, clock));
+        return Ok(()); // from now on node 0's transactions are captured
+    }
+    let pre = crate::monitors::pre_txn(w, 0);
+    {
+        let (um, clock) = w.mon.sticky.um.as_mut().unwrap();
+        clock.fetch_add(2_000, Ordering::SeqCst);
+        if undo {
+            um.undo_blocking();
+        } else {
+            um.redo_blocking();
+        }
+        clock.fetch_add(2_000, Ordering::SeqCst);
+    }
+    w.stats.f_clock += 1;
+    let uid = w.collect_emission(0, true)?;
+    crate::monitors::post_txn(w, 0, TxnKind::Undo, uid, pre, &[])
 }
 
 fn create_sticky(w: &mut World, n: usize, a: &[u64], s: &[String]) -> VResult {
@@ -722,6 +796,9 @@ pub fn draw(w: &mut World) -> Option<Ev> {
         if types.is_empty() {
             return None;
         }
+        if w.cfg.sticky_undo && w.rng.chance(30) {
+            return Some(Ev::Special { n: 0, k: if w.rng.chance(65) { "sundo" } else { "sredo" }.into(), a: vec![], s: vec![] });
+        }
         let t = w.rng.pick(&types).clone();
         let pos = match w.rng.below(5) {
             0 => 0,
@@ -765,6 +842,8 @@ pub fn draw(w: &mut World) -> Option<Ev> {
 pub fn exec(w: &mut World, n: usize, k: &str, a: &[u64], s: &[String]) -> VResult {
     match k {
         "sticky" => create_sticky(w, n, a, s),
+        "sundo" => sticky_undo(w, true),
+        "sredo" => sticky_undo(w, false),
         "quote" => create_quote(w, n, a, s),
         "qdelete" => delete_quote(w, n, a),
         "mapset" => map_write(w, n, a, s, false),
